@@ -955,6 +955,58 @@ func (p *Prog) siteKeyInstr(in ssa.Instruction) string {
 }
 
 // podComposition (C13.R2)
+// delegate: fn is a one-block function that hands its work to one repo function g and returns g's
+// results as they are (`func F(p *Pod) *R { return f(p.Spec.A, p.Spec.B) }`): g, read with its
+// parameters bound to the argument terms of that call.
+func (ck *Check) delegate(fn *ssa.Function) (*ssa.Function, *Ctx) {
+	if fn == nil || len(fn.Blocks) != 1 {
+		return nil, nil
+	}
+	r, ok := fn.Blocks[0].Instrs[len(fn.Blocks[0].Instrs)-1].(*ssa.Return)
+	if !ok || len(r.Results) == 0 {
+		return nil, nil
+	}
+	var call *ssa.Call
+	for _, in := range fn.Blocks[0].Instrs {
+		c, ok := in.(*ssa.Call)
+		if !ok {
+			continue
+		}
+		if g := c.Common().StaticCallee(); g != nil && ck.P.inRepo(g) && g.Blocks != nil {
+			if call != nil {
+				return nil, nil
+			}
+			call = c
+		}
+	}
+	if call == nil {
+		return nil, nil
+	}
+	for i, rv := range r.Results {
+		switch x := rv.(type) {
+		case *ssa.Call:
+			if x != call || len(r.Results) != 1 {
+				return nil, nil
+			}
+		case *ssa.Extract:
+			if x.Tuple != ssa.Value(call) || x.Index != i {
+				return nil, nil
+			}
+		default:
+			return nil, nil
+		}
+	}
+	g := call.Common().StaticCallee()
+	ctx := ck.P.NewCtx(fn)
+	args := make([]*Term, len(call.Common().Args))
+	for i, av := range call.Common().Args {
+		args[i] = ctx.Term(av)
+	}
+	ch := ctx.child(g, call, args)
+	ch.depth = 0
+	return g, ch
+}
+
 func (ck *Check) podComposition(rule string, sched *ssa.Package) {
 	fn := sched.Func("ComputePodResourceRequest")
 	tRes := ck.A.named(pkgScheduler, "Resource")
@@ -965,6 +1017,9 @@ func (ck *Check) podComposition(rule string, sched *ssa.Package) {
 		return
 	}
 	ctx := ck.P.NewCtx(fn)
+	if g, ch := ck.delegate(fn); g != nil {
+		fn, ctx = g, ch
+	}
 	type phase struct {
 		call   *ssa.Call
 		loop   *Loop
@@ -1164,6 +1219,14 @@ func (ck *Check) commutativeFold(rule string, fn *ssa.Function, accField string)
 		return
 	}
 	ctx := ck.P.NewCtx(fn)
+	// the fold may sit one frame down: `func Total(xs) (T, error) { return total(xs, perElement) }`
+	if g, ch := ck.delegate(fn); g != nil && len(g.Params) > 0 && len(fn.Params) > 0 {
+		if ch.Term(g.Params[0]).Key() != paramTerm(fn.Params[0]).Key() {
+			ck.fail(rule, funcID(fn)+"/loop", ck.P.position(fn.Pos()), funcID(fn), "a full range loop over the list parameter", ch.Term(g.Params[0]).String(), "the helper that totals is handed something other than the list")
+			return
+		}
+		fn, ctx = g, ch
+	}
 	var loop *Loop
 	for _, l := range loopsOf(fn) {
 		if l.Over == ssa.Value(fn.Params[0]) {
